@@ -50,6 +50,17 @@ impl SetCase {
                 Err(e) => return R::Syntax(e),
             };
             let tc = ctx_to_tera_enc(&self.ctx, &Enc::new(splitmix(self.salt)));
+            // both public entry points in turn (they set up the scopes separately): render, and render_to into a buffer
+            if self.salt % 3 == 1 {
+                let mut buf: Vec<u8> = Vec::new();
+                return match t.render_to(&self.entry, &tc, &mut buf) {
+                    Ok(()) => match String::from_utf8(buf) {
+                        Ok(s) => R::Ok(s),
+                        Err(_) => R::Err("render_to wrote invalid UTF-8".to_string()),
+                    },
+                    Err(e) => R::Err(e.to_string()),
+                };
+            }
             match t.render(&self.entry, &tc) {
                 Ok(s) => R::Ok(s),
                 Err(e) => R::Err(e.to_string()),
